@@ -59,7 +59,7 @@ func hasTwoThirds(fs []ir.Fact, T, x string) bool {
 func C03(p *ir.Program, r *report.R) {
 	c := C{p, r}
 	r.Floor = 70
-	r.Explain = "Decided: in ValidatorSet.VerifyCommit the tally increment is dominated by precommit!=nil, height/round/type equality, signature verification with the public key of the validator AT THE SAME SLOT over the sign-bytes of the same precommit and chain id, and block-id equality; the amount added is that validator's power; the nil-error return is dominated by the strict two-thirds normal form and the size/height tests. In VoteSet.addVote the admission call is dominated by index/address/size/height/round/type/lookup/signature guards; addVerifiedVote counts a validator once in the round total and once per block id and sets maj23 only at the first crossing; quorum expressions match the strict-two-thirds normal forms; sign-bytes cover chain id, height, round, type and the whole block id; every VerifyCommit call site uses the right set/height/id and propagates the error. NOT decided: the signature scheme, int64 overflow beyond the quantifier's 2^62 bound, arrival-order behaviour beyond the single-count structure."
+	r.Explain = "Decided: in ValidatorSet.VerifyCommit the tally increment is dominated by precommit!=nil, height/round/type equality, signature verification with the public key of the validator AT THE SAME SLOT over the sign-bytes of the same precommit and chain id, and block-id equality; the amount added is that validator's power; the nil-error return is dominated by the strict two-thirds normal form and the size/height tests. In VoteSet.addVote the admission call is dominated by index/address/size/height/round/type/lookup/signature guards; addVerifiedVote counts a validator once in the round total and once per block id and sets maj23 only at the first crossing; quorum expressions match the strict-two-thirds normal forms; sign-bytes cover chain id, height, round, type and the whole block id; every VerifyCommit call site uses the right set/height/id and propagates the error. ADDED after seeded-change testing: Fast sync: the block id handed to VerifyCommit is built from the first block itself (hash and part-set header), the height is the first block's, the commit is the second block's LastCommit, and CheckBlock/CommitBlock/ApplyBlock receive that same block, id and commit. NOT decided: the signature scheme, int64 overflow beyond the quantifier's 2^62 bound, arrival-order behaviour beyond the single-count structure."
 	r.Trusted = []string{"crypto.PubKey.VerifyBytes (signature scheme)", "ValidatorSet.TotalVotingPower / GetByIndex (C17 decides writers of the set)"}
 
 	precommitT := fmt.Sprint(c.ConstInt("types", "VoteTypePrecommit"))
@@ -343,6 +343,34 @@ func C03(p *ir.Program, r *report.R) {
 			}
 		})
 		c.MustFind("K1", "blockchain.(*BlockchainReactor).poolRoutine/apply", pr, n, "CheckBlock/CommitBlock/ApplyBlock calls")
+		// the commit that is verified is the commit FOR the block that is applied: the block id is
+		// computed from the first block itself (hash and part-set header), the height is the first
+		// block's, the commit is the second block's LastCommit, and the same first block is what
+		// CheckBlock/CommitBlock/ApplyBlock receive.
+		for _, call := range ir.CallsDeep(pr, "types.ValidatorSet.VerifyCommit") {
+			set, chain, id, h, cm := Arg(call, 0), Arg(call, 1), Arg(call, 2), Arg(call, 3), Arg(call, 4)
+			first := strings.TrimSuffix(h, ".Header.Height")
+			second := strings.TrimSuffix(cm, ".LastCommit")
+			okID := first != h && strings.HasPrefix(id, "types.BlockID{Hash:types.Block.Hash("+first+"),PartsHeader:types.PartSet.Header(types.Block.MakePartSet("+first+",")
+			ok := set == "status.Validators" && strings.HasSuffix(chain, ".ChainID") && okID && second != cm && second != first
+			r.Check("K1", "blockchain.(*BlockchainReactor).poolRoutine/VerifyCommit/args", p.InstrPos(call.(ssa.Instruction)), ok,
+				"VerifyCommit(status.Validators; ChainID, BlockID{Hash(first), MakePartSet(first).Header()}, first.Height, second.LastCommit): "+short(ir.RenderCall(call), 400))
+			ir.InstrsDeep(pr, func(f *ssa.Function, in ssa.Instruction) {
+				cl, isCall := in.(ssa.CallInstruction)
+				if !isCall {
+					return
+				}
+				cn := ir.CalleeName(cl)
+				switch {
+				case ir.Match("*BlockChainApp.CheckBlock", cn):
+					r.Check("K1", "blockchain.(*BlockchainReactor).poolRoutine/same-block/CheckBlock", p.InstrPos(in), Arg(cl, 1) == first, "CheckBlock receives the verified block: "+short(Arg(cl, 1), 120))
+				case ir.Match("*BlockChainApp.CommitBlock", cn):
+					r.Check("K1", "blockchain.(*BlockchainReactor).poolRoutine/same-block/CommitBlock", p.InstrPos(in), Arg(cl, 1) == first && Arg(cl, 3) == cm, "CommitBlock receives the verified block and the verified commit: "+short(Arg(cl, 1), 120)+" / "+short(Arg(cl, 3), 120))
+				case ir.Match("*BlockExecutor.ApplyBlock", cn):
+					r.Check("K1", "blockchain.(*BlockchainReactor).poolRoutine/same-block/ApplyBlock", p.InstrPos(in), Arg(cl, 2) == id && Arg(cl, 3) == first, "ApplyBlock receives the verified block id and block")
+				}
+			})
+		}
 		// reconstructLastCommit
 		rl := p.Func("consensus", "ConsensusState.reconstructLastCommit")
 		for _, s := range p.Stores(p.Field("consensus/types", "RoundState.LastCommit")) {
@@ -357,3 +385,45 @@ func C03(p *ir.Program, r *report.R) {
 func condAtomsOf(v ssa.Value) []string { return ir.CondAtoms(v, true) }
 
 var _ = report.Discharged
+
+
+// quorumRules: the premises of quorum intersection that C01's agreement argument rests on —
+// a block id becomes the +2/3 majority of a vote set only when its tally crosses
+// total*2/3+1 (strictly more than two thirds), once; "any +2/3" is sum > total*2/3.
+// Shared by C01 (agreement needs intersecting quorums) and C03 (decided there in more detail).
+func quorumRules(c C) {
+	p, r := c.P, c.R
+	fn := p.Func("types", "VoteSet.addVerifiedVote")
+	name := "types.(*VoteSet).addVerifiedVote"
+	n := 0
+	for _, s := range p.Stores(p.Field("types", "VoteSet.maj23")) {
+		if s.Fn != fn {
+			continue
+		}
+		n++
+		q := "((types.ValidatorSet.TotalVotingPower(voteSet.valSet) * 2) / 3) + 1)"
+		c.Guards(name, "quorum/set maj23", s.Instr,
+			G{"first-majority-only", "eq(voteSet.maj23,nil)"},
+			G{"crossing:before<quorum", "lt(*.sum,(" + q + ")"},
+			G{"crossing:quorum<=after", "le((" + q + ",*.sum)"},
+		)
+	}
+	c.MustFind("K1", name+"/quorum/set maj23", fn, n, "store to VoteSet.maj23")
+	any := p.Func("types", "VoteSet.HasTwoThirdsAny")
+	T := "types.ValidatorSet.TotalVotingPower(voteSet.valSet)"
+	ok := false
+	for _, rt := range ir.Returns(any) {
+		for _, a := range condAtomsOf(rt.Results[0]) {
+			if twoThirds(a, T, "voteSet.sum") {
+				ok = true
+			}
+		}
+	}
+	r.Check("K11", "types.(*VoteSet).HasTwoThirdsAny/quorum/two-thirds", p.Pos(any.Pos()), ok, "returns sum > total*2/3 (strict two-thirds normal form)")
+	tm := p.Func("types", "VoteSet.TwoThirdsMajority")
+	for _, rt := range ir.Returns(tm) {
+		if ir.AbstractResult(rt.Results[1]) == "true" {
+			c.Guards("types.(*VoteSet).TwoThirdsMajority", "quorum/return ok", rt.Instr, G{"maj23-set", "!eq(voteSet.maj23,nil)"})
+		}
+	}
+}
